@@ -257,38 +257,53 @@ type amPair struct {
 
 type amPairs []amPair
 
-func (p *amPairs) Add(con parser.Annotation, inter AnnotationMapper) {
+// Add returns true if con opened a new pair (the first annotation handled by this mapper)
+func (p *amPairs) Add(con parser.Annotation, inter AnnotationMapper) bool {
 	for i := range *p {
 		if (*p)[i].inter == inter {
 			(*p)[i].cont = append((*p)[i].cont, con)
-			return
+			return false
 		}
 	}
 	*p = append(*p, amPair{
 		cont:  []parser.Annotation{con},
 		inter: inter,
 	})
+	return true
 }
 
 func mapAnnotations(ctx context.Context, as parser.Annotations, scope AnnoScope, desc interface{}, opt Options) (ret []annoPair, left []parser.Annotation, next []parser.Annotation, err error) {
 	con := make(amPairs, 0, len(as))
 	cur := make([]parser.Annotation, 0, len(as))
+	// order keeps the declaration order: >= 0 is the index of a mapper pair (placed where its first annotation
+	// stands), -1-i is the i-th annotation of as. The order matters, e.g. for the search order of http sources.
+	order := make([]int, 0, len(as))
 	// try find mapper
-	for _, a := range as {
+	for i, a := range as {
 		if mapper := FindAnnotationMapper(a.Key, scope); mapper != nil {
-			con.Add(*a, mapper)
+			if con.Add(*a, mapper) {
+				order = append(order, len(con)-1)
+			}
 		} else {
 			// no mapper found, just append it to the result
-			cur = append(cur, *a)
+			order = append(order, -1-i)
 		}
 	}
 	// process all the annotations under the mapper
-	for _, a := range con {
+	mapped := make([][]parser.Annotation, len(con))
+	for i, a := range con {
 		if c, n, err := a.inter.Map(ctx, a.cont, desc, opt); err != nil {
 			return nil, nil, nil, err
 		} else {
-			cur = append(cur, c...)
+			mapped[i] = c
 			next = n
+		}
+	}
+	for _, o := range order {
+		if o >= 0 {
+			cur = append(cur, mapped[o]...)
+		} else {
+			cur = append(cur, *as[-1-o])
 		}
 	}
 	m, left := mergeAnnotations(cur, scope)
